@@ -50,9 +50,9 @@ def replaceFirst (pat rep : S) : S → S
 /-- general `strings.Replace(s, pat, rep, 1)` including the empty pattern (inserts at the front) -/
 def goReplace1 (pat rep s : S) : S := if pat = [] then rep ++ s else replaceFirst pat rep s
 
-def parentTok : S := "../".toList
-def parentPH : S := "__parent__".toList
-def fsrootPH : S := "__fsroot__".toList
+def parentTok : S := ['.', '.', '/']
+def parentPH : S := ['_', '_', 'p', 'a', 'r', 'e', 'n', 't', '_', '_']
+def fsrootPH : S := ['_', '_', 'f', 's', 'r', 'o', 'o', 't', '_', '_']
 
 /-- `replaceParentDirsWithPlaceholder` -/
 def encodeParent (s : S) : S := replaceAll parentTok parentPH (by decide) s
@@ -195,7 +195,7 @@ def dropWhileNB : S → S
   | [] => []
   | c :: cs => if notBrace c then dropWhileNB cs else c :: cs
 
-def phTypes : List S := ["o".toList, "os".toList, "i".toList, "is".toList, "p".toList, "t".toList]
+def phTypes : List S := [['o'], ['o', 's'], ['i'], ['i', 's'], ['p'], ['t']]
 
 /-- try to match a placeholder at the head of the string (which starts after the '{') -/
 def matchAfterBrace (s : S) : Option (PH × S) :=
